@@ -272,9 +272,6 @@ Proof.
   - discriminate.
 Qed.
 
-Lemma wstep_trace_grows : forall latest ctxd svcd r w i o,
-  Wstep latest ctxd svcd r w i = Some o -> True.
-Proof. trivial. Qed.
 
 Lemma find_worker_In : forall r ws (w : worker), find_worker r ws = Some w -> exists q, q = r /\ In (q, w) ws.
 Proof.
